@@ -88,6 +88,11 @@ def run_unit(cid, tier, seed, fam, start, count):
         set_logging(debug_log)
         if debug_log:
             sit["env.debug_logging_cases"] += 1
+        from . import loop as vfloop
+
+        vfloop.ENV["custom_task_factory"] = i % 5 == 2  # an ordinary (lazy) task factory installed on the loop
+        if vfloop.ENV["custom_task_factory"]:
+            sit["env.custom_task_factory_cases"] += 1
         import signal
 
         signal.signal(signal.SIGALRM, _on_case_alarm)
@@ -112,6 +117,7 @@ def run_unit(cid, tier, seed, fam, start, count):
                 v = dict(v)
                 v["case"] = case
                 v["family"] = fam
+                v["env"] = {"debug_logging": debug_log, "custom_task_factory": vfloop.ENV["custom_task_factory"]}
                 v["index"] = i
                 v["seed"] = seed
                 v["log_tail"] = res.get("log_tail")
@@ -145,8 +151,12 @@ def replay(cid, path):
         v = json.load(f)
     spec = checks.get(cid)
     spec.prepare()
-    logging.disable(logging.CRITICAL)
     warnings.simplefilter("ignore")
+    from . import loop as vfloop
+
+    env = v.get("env") or {}
+    set_logging(bool(env.get("debug_logging")))  # the environment of the recorded execution
+    vfloop.ENV["custom_task_factory"] = bool(env.get("custom_task_factory"))
     res = spec.run_case(v["case"], verbose=True)
     print(json.dumps(v["case"]))
     for line in res.get("log", []):
